@@ -452,7 +452,7 @@ func init() {
 		ID:    "C15",
 		Level: "exploration",
 		Rule: "templates: every list/array of width 1..2 over a pool of 22 leaves (literals, ~x for 6 bindings, ~@xs for 4 lists incl. empty and nested, ~(compound), ~@(compound), traced unquotes) and width-1..2 nested containers; width 3 over the leaves; " +
-			"each in explicit form and with the reader sugar ^ ~ ~@; value compared with exact substitution (R4 inside the reference evaluator); the empty hash literal {} at every position of templates of width 1..3, also as a macro body. Macros: 18 macros (three of them expanding to break / continue / a tail self-call, three to a parenthesised assignment / a bare symbol; forms R1 does not model are judged macro call vs hand expansion on the implementation) x all argument tuples over 6 forms x 10 call sites (top level, function, defn, loop, let, argument, cond, let inside a loop, newScope inside a loop inside a function, let+newScope inside a defn) x {direct, inside another macro's expansion}: " +
+			"each in explicit form and with the reader sugar ^ ~ ~@; value compared with exact substitution (R4 inside the reference evaluator); the empty hash literal {} at every position of templates of width 1..3, also as a macro body; 12 templates x 3 routes (function body, macro over a quote, top-level loop) expanded twice, a write into a container of the first expansion must change neither the second nor the next one. Macros: 18 macros (three of them expanding to break / continue / a tail self-call, three to a parenthesised assignment / a bare symbol; forms R1 does not model are judged macro call vs hand expansion on the implementation) x all argument tuples over 6 forms x 10 call sites (top level, function, defn, loop, let, argument, cond, let inside a loop, newScope inside a loop inside a function, let+newScope inside a defn) x {direct, inside another macro's expansion}: " +
 			"value/effects equal those of the hand-written expansion, stacks at rest; macexpand leaves depths and globals of the caller unchanged and prints the exact substitution",
 		Assumptions: []string{"splicing a non-list and nested syntax-quotes are outside the modelled fragment (skipped)"},
 		Run: func(c *engine.Ctx) {
